@@ -1724,6 +1724,15 @@ func plHostVerdict(c *plCfg, q *plQuery, host string) int {
 				// a plain allow-list entry for the name: must be let through
 				return 2
 			}
+			if !allowBad && r.IsHost {
+				// an exact-host or hosts-style line of an allow list naming
+				// the host (round 7): allow-listed as well
+				for _, n := range r.Names {
+					if n == host {
+						return 2
+					}
+				}
+			}
 		}
 		must := false
 		for _, r := range c.BlockRules() {
@@ -2379,6 +2388,30 @@ func (ps *plServer) qTouch(t *testing.T, out *vfOut) {
 		"QTouch", "filtering/config (same values)", nil)
 }
 
+// qConfig posts filtering/config switching the GLOBAL filtering flag (round 7,
+// Model/FilterSwitch.v): the flag is a per-request default that a client's own
+// settings override; the engines are rebuilt whatever it says.
+func (ps *plServer) qConfig(t *testing.T, out *vfOut, on bool) {
+	t.Helper()
+	phase := ps.qPhase()
+	code, text := ps.post(t, "/control/filtering/config", map[string]any{"enabled": on, "interval": 0})
+	if code != http.StatusOK {
+		t.Fatalf("filtering/config enabled=%v: %d %s", on, code, text)
+	}
+	if ps.cfg.Filtering != on {
+		out.Class("queue-global-filtering-toggled")
+	}
+	ps.cfg.Filtering = on
+	ps.changes++
+	ps.qStep(vfApp("QFilt", vfBool(on)), fmt.Sprintf("filtering/config enabled=%v", on))
+	ps.qObserve()
+	out.Class(phase)
+	if !on {
+		out.Class("queue-global-filtering-switched-off")
+	}
+	ps.qRow++
+}
+
 // qTake: the loop receives the queued task (first half of its first arm).
 func (ps *plServer) qTake(t *testing.T, out *vfOut) {
 	if ps.qBusy != nil {
@@ -2565,7 +2598,11 @@ func plRunQueue(t *testing.T, out *vfOut, r *vfRand, ps *plServer, steps int, na
 		case k < 19:
 			ps.qAddKnownURL(t, out, vfPick(r, ls), r.Bool())
 		default:
-			ps.qTouch(t, out)
+			if r.Bool() {
+				ps.qConfig(t, out, !c.Filtering)
+			} else {
+				ps.qTouch(t, out)
+			}
 		}
 	}
 	for k := 0; k < steps; k++ {
